@@ -211,121 +211,119 @@ def _canon(model, f, node, names):
     return alts[0][1]
 
 
-def fill_loop_shape(model, res):
-    """R-SHAPE of _deduct_order_amount."""
-    f = model.func("DeribitOptionMarket._deduct_order_amount")
-    params = f.params[1:]
-    if len(params) != 3:
-        raise AnalysisError("C15: _deduct_order_amount signature changed")
-    amount_p, orders_p, price_p = params
-    top_if = [s for s in f.node.body if isinstance(s, ast.If)]
-    if len(top_if) != 1:
-        raise AnalysisError("C15: _deduct_order_amount: expected one limit/market split")
-    iff = top_if[0]
-    t = iff.test
-    limit_body, market_body = None, None
-    if isinstance(t, ast.Compare) and isinstance(t.left, ast.Name) and t.left.id == price_p and len(t.ops) == 1 \
-            and isinstance(t.comparators[0], ast.Constant) and t.comparators[0].value is None:
-        if isinstance(t.ops[0], ast.IsNot):
-            limit_body, market_body = iff.body, iff.orelse
-        elif isinstance(t.ops[0], ast.Is):
-            limit_body, market_body = iff.orelse, iff.body
-    if limit_body is None:
-        raise AnalysisError("C15: _deduct_order_amount: limit/market test not recognised")
+# cash account of the option market: deposit moves `amount` wallet -> cash, withdraw cash -> wallet (rejected when the
+# cash would become negative), both recorded; the book write-back is a NEW list (deep copy minus the fills)
+REF_DEPOSIT = '''
+def deposit(self, amount):
+    self.broker.subtract_from_balance(self.token, amount)
+    self._add_to_balance(amount)
+    self._record_action(DepositAction(market=self._market_info, token=self.token.name, amount=amount))
+    return self.balance
+'''
 
-    def loop_of(body):
-        loops = [s for s in body if isinstance(s, ast.For)]
-        if len(loops) != 1:
-            raise AnalysisError("C15: _deduct_order_amount: expected exactly one loop per arm")
-        return loops[0]
+REF_WITHDRAW = '''
+def withdraw(self, amount):
+    left = self._subtract_from_balance(amount)
+    self.broker.add_to_balance(self.token, amount)
+    self._record_action(WithdrawAction(market=self._market_info, token=self.token.name, amount=amount))
+    return left
+'''
 
-    problems = []
-    # ---- market arm
-    lp = loop_of(market_body)
-    in_order = isinstance(lp.iter, ast.Name) and lp.iter.id == orders_p and isinstance(lp.target, ast.Name)
-    res.ob("R-SHAPE", "market fill visits the levels in list order (best first)", f.loc(lp), ok=in_order,
-           detail=f"iterates `{ast.unparse(lp.iter)}`")
-    if not in_order:
-        problems.append((lp, f"fill loop iterates `{ast.unparse(lp.iter)}` instead of the order list itself"))
-    lv = lp.target.id if isinstance(lp.target, ast.Name) else "order"
-    # remaining variable: initialised from amount before the loop
-    rem = None
-    for s in market_body:
-        if isinstance(s, ast.Assign) and isinstance(s.targets[0], ast.Name) and isinstance(s.value, ast.Name) \
-                and s.value.id == amount_p:
-            rem = s.targets[0].id
-    if rem is None:
-        raise AnalysisError("C15: remaining-amount variable not found")
-    names = [lv, rem, amount_p, orders_p, price_p]
-    take_var, take_ok = None, False
-    dec_rem = dec_lvl = app_ok = False
-    stop_ok = False
-    level_size = _canon(model, f, ast.parse(f"{lv}[1]", mode="eval").body, names)
-    for s in lp.body:
-        if isinstance(s, ast.Assign) and isinstance(s.targets[0], ast.Name) and isinstance(s.value, ast.Call):
-            try:
-                v = _canon(model, f, s.value, names)
-            except Unreadable:
-                continue
-            want = minmax("min", [level_size, sym(rem)])
-            if v == want:
-                take_var, take_ok = s.targets[0].id, True
-    if take_var is None:
-        problems.append((lp, "no `take = min(level size, remaining)` in the market fill loop"))
+REF_CASH_ADD = '''
+def _add_to_balance(self, amount):
+    self.balance = self.balance + amount
+    return self.balance
+'''
+
+REF_CASH_SUB = '''
+def _subtract_from_balance(self, amount):
+    if self.balance - amount < Decimal(0):
+        raise InsufficientBalanceError("not enough cash")
+    self.balance = self.balance - amount
+    return self.balance
+'''
+
+REF_ESTIMATE = '''
+def estimate_cost(self, instrument_name, amount, trade_type="buy", price_in_token=None):
+    n = self.__get_trade_amount(amount)
+    row = self.data.loc[(self._market_status.timestamp, instrument_name)]
+    if trade_type == "buy":
+        book = row.asks
     else:
-        names.append(take_var)
-        for s in lp.body:
-            if isinstance(s, ast.AugAssign) and isinstance(s.op, ast.Sub):
-                try:
-                    v = _canon(model, f, s.value, names)
-                except Unreadable:
-                    continue
-                if v == sym(take_var):
-                    tt = ast.unparse(s.target)
-                    if tt == rem:
-                        dec_rem = True
-                    elif tt == f"{lv}[1]":
-                        dec_lvl = True
-            if isinstance(s, ast.Expr) and isinstance(s.value, ast.Call) and ast.unparse(s.value.func).endswith(".append"):
-                a = s.value.args[0]
-                if isinstance(a, ast.Call) and ast.unparse(a.func) == "Order" and len(a.args) == 2:
-                    try:
-                        pv = _canon(model, f, a.args[0], names)
-                        av = _canon(model, f, a.args[1], names)
-                        app_ok = pv == _canon(model, f, ast.parse(f"{lv}[0]", mode="eval").body, names) and av == sym(take_var)
-                    except Unreadable:
-                        pass
-            if isinstance(s, ast.If) and any(isinstance(b, ast.Break) for b in s.body):
-                txt = ast.unparse(s.test)
-                stop_ok = f"{rem} == " in txt or f"{rem} <= " in txt
-        for flag, msg in ((dec_rem, "remaining amount is not reduced by the take"),
-                          (dec_lvl, "level size is not reduced by the take"),
-                          (app_ok, "fill record is not Order(level price, take)"),
-                          (stop_ok, "loop does not stop when the order is filled")):
-            if not flag:
-                problems.append((lp, msg))
-    res.ob("R-SHAPE", "market fill: take = min(level, remaining); remaining -= take; level -= take; record (price, take); "
-                      "stop when filled", f.loc(lp), ok=take_ok and dec_rem and dec_lvl and app_ok and stop_ok)
-    # ---- limit arm
-    ll = loop_of(limit_body)
-    lim_ok = isinstance(ll.iter, ast.Name) and ll.iter.id == orders_p
-    filt_ok = False
-    for s in ll.body:
-        if isinstance(s, ast.If) and isinstance(s.test, ast.Compare) and len(s.test.ops) == 1 \
-                and isinstance(s.test.ops[0], ast.Eq):
-            sides = {ast.unparse(s.test.left), ast.unparse(s.test.comparators[0])}
-            lvn = ll.target.id if isinstance(ll.target, ast.Name) else "order"
-            if price_p in sides and any(f"{lvn}[0]" in x for x in sides):
-                body_txt = " ".join(ast.unparse(b) for b in s.body)
-                if f"{lvn}[1] -= {amount_p}" in body_txt and f"Order({price_p}, {amount_p})" in body_txt:
-                    filt_ok = True
-    res.ob("R-SHAPE", "limit fill: only levels whose price equals the limit are reduced, by the order amount",
-           f.loc(ll), ok=lim_ok and filt_ok)
-    if not (lim_ok and filt_ok):
-        problems.append((ll, "limit arm does not fill exactly the level at the limit price"))
-    for node, msg in problems:
-        res.find("R-SHAPE", "DeribitOptionMarket._deduct_order_amount", msg, f.loc(node),
-                 f"_deduct_order_amount: {msg}")
+        book = row.bids
+    fills = self._deduct_order_amount(n, copy.deepcopy(book), price_in_token)
+    premium = Decimal(sum([Decimal(t.amount) * Decimal(t.price) for t in fills]))
+    return premium + self.get_trade_fee(n, premium)
+'''
+
+REF_NEW_BOOK = '''
+def get_new_order_list(old, used):
+    book = copy.deepcopy(old)
+    for fill in used:
+        for level in book:
+            if level[0] == float(fill[0]):
+                level[1] -= float(fill[1])
+                break
+    return book
+'''
+
+# per-bar status: the base class stores prices and resets the flags; the option market loads the hourly snapshot that
+# contains the bar (floor to the hour - never a later snapshot) unless the caller supplied one
+REF_SET_STATUS = '''
+def set_market_status(self, data, price):
+    super().set_market_status(data, price)
+    if data.data is None:
+        hour = data.timestamp.floor(DERIBIT_OPTION_FREQ)
+        if hour in self._data.index:
+            data.data = self._data.loc[hour].copy()
+        else:
+            data.data = pd.DataFrame(columns=self._data.columns)
+            if self._is_open():
+                logging.warning("no data")
+    self._market_status = data
+'''
+
+REF_BASE_SET_STATUS = '''
+def set_market_status(self, data, price):
+    self._price_status = price
+    if self._data is None or data.timestamp in self._data.index:
+        self.is_open = True
+    else:
+        self.is_open = False
+    self.has_update = False
+'''
+
+REF_FILL = '''
+def _deduct_order_amount(self, amount, orders, price_in_token):
+    fills = []
+    if price_in_token is None:
+        remaining = amount
+        for level in orders:
+            if level[1] == 0 or level[1] == Decimal(0):
+                continue
+            take = min(Decimal(str(level[1])), remaining)
+            level[1] -= float(take)
+            remaining -= take
+            fills.append(Order(Decimal(str(level[0])), take))
+            if level[1] > 0 or remaining == Decimal(0):
+                break
+    else:
+        for level in orders:
+            if Decimal(str(level[0])) == price_in_token:
+                level[1] -= amount
+                fills.append(Order(price_in_token, amount))
+    return fills
+'''
+
+
+def fill_loop_shape(model, res):
+    """The fill loop equals the reference procedure as a canonical loop (value numbering of its one-iteration transfer
+    relation): market orders walk the levels in list order, skip empty levels, take min(displayed size, remaining) from
+    each, shrink the level by what was taken, record a fill at the level's price, and stop when the level is not
+    exhausted or nothing remains; limit orders fill the whole amount at the level whose price equals the limit."""
+    effects_check(res, model, "DeribitOptionMarket._deduct_order_amount", REF_FILL,
+                  "fill loop: best-first in list order, min(level size, remaining) per level, level shrunk by the take, stop "
+                  "conditions; limit orders only at the matching level", [], rule="R-SHAPE")
 
 
 def isolation_rule(model, res):
@@ -380,6 +378,22 @@ def run(model, tier="quick"):
     effects_check(res, model, "DeribitOptionMarket.get_market_balance", REF_BALANCE,
                   "equity = cash + sum(amount * mark) on open bars; on closed bars the last option valuation plus the CURRENT cash",
                   [], opaque=["round_decimal", "_is_open"])
+    wfx = ["subtract_from_balance", "add_to_balance", "_add_to_balance", "_subtract_from_balance", "_record_action"]
+    effects_check(res, model, "DeribitOptionMarket.deposit", REF_DEPOSIT, "deposit: amount wallet -> option cash, recorded", wfx, ordered=True)
+    effects_check(res, model, "DeribitOptionMarket.withdraw", REF_WITHDRAW, "withdraw: amount option cash -> wallet, recorded", wfx, ordered=True)
+    effects_check(res, model, "DeribitOptionMarket._add_to_balance", REF_CASH_ADD, "cash credit", [])
+    effects_check(res, model, "DeribitOptionMarket._subtract_from_balance", REF_CASH_SUB, "cash debit rejected when it would go negative", [],
+                  keep_raise_effects=True)
+    formula_check(res, model, "DeribitOptionMarket.estimate_cost", REF_ESTIMATE,
+                  "cost estimate = premium of the fills + fee, on a deep copy of the bar's book",
+                  opaque=["round_decimal", "_deduct_order_amount", "get_trade_fee", "__get_trade_amount"])
+    effects_check(res, model, "deribit.helper.get_new_order_list", REF_NEW_BOOK,
+                  "written-back book = deep copy of the displayed book minus each fill at its level", [])
+    effects_check(res, model, "DeribitOptionMarket.set_market_status", REF_SET_STATUS,
+                  "per-bar status: snapshot of the hour containing the bar (floor), never a later one; caller-supplied data kept",
+                  ["set_market_status"], opaque=["_is_open"])
+    effects_check(res, model, "Market.set_market_status", REF_BASE_SET_STATUS,
+                  "base status: prices stored, open iff the bar exists in the data, update flag cleared", [])
     fill_loop_shape(model, res)
     n = isolation_rule(model, res)
     res.floor("fill_loop_call_sites", n, 3)
